@@ -498,3 +498,31 @@ def unit_dispatch(unit):
     if unit.get("induction"):
         return unit_entry(unit)
     return CPU.unit_entry(unit)
+
+
+def unit_large_count(unit):
+    """Bounded companion: one counted opcode executed natively and whole with a LARGE count in a fresh plain
+    interpreter (contracts/block_large.py); laws: ends with I = 0 without error, pointer register moved by
+    I elements, number of byte stores = elements.  Catches anything that ends a long run early from outside
+    the IL (the loop rule cuts the real interpreter loop after one round)."""
+    import json
+    import os
+    import subprocess
+    import sys
+    import time as _t
+    t0 = _t.time()
+    repo = os.environ.get("VERIF_REPO", "/repo")
+    here = os.path.dirname(os.path.abspath(__file__))
+    cases = [[unit["key"], c] for c in unit["counts"]]
+    env = dict(os.environ, PYTHONPATH=repo, FORCE_BINJA_MOCK="1")
+    env.pop("SYMX_FIX_INPUTS", None)
+    p = subprocess.run([sys.executable, os.path.join(here, "block_large.py"), json.dumps(cases)], capture_output=True, text=True, timeout=unit.get("timeout", 500), env=env)
+    if p.returncode != 0:
+        return dict(unit=unit, status="checker-error", error="large-count companion failed: " + (p.stderr or p.stdout)[-600:], obligations=0, proved=0,
+                    failed=[], nfailed=0, unknown=0, stats={}, wall_s=round(_t.time() - t0, 2))
+    res = json.loads(p.stdout.strip().splitlines()[-1])
+    failed = [dict(name=f"large-count:completes-with-I=0:{r['code']}", model=dict(key=r["key"], count=r["count"]), backend="evaluation",
+                   detail=f"{r['code']} with I={r['count']:#x}: " + "; ".join(r["problems"])) for r in res if r["problems"]]
+    return dict(unit=unit, status="ok", error=None, kinds={"native-run": len(res)}, obligations=len(res), proved=len(res) - len(failed), failed=failed, nfailed=len(failed),
+                unknown=0, undecided_notes=[], stats=dict(paths=len(res), queries=0, solver_s=0.0), by_backend={"evaluation": len(res) - len(failed)},
+                wall_s=round(_t.time() - t0, 2), bounded=True)
